@@ -147,6 +147,48 @@ func RunQuorum(tier string) *Report {
 	}
 	r.Domains = append(r.Domains, fmt.Sprintf("majority beyond the on-stack fast path: sizes 8..%d, all vectors over {missing,0,1}", top))
 
+	// extreme index values (the whole uint64 range, differences of 2^63 and more)
+	{
+		big := []uint64{0, 5, 1<<63 - 1, 1<<63 + 9, math.MaxUint64 - 1, math.MaxUint64}
+		for n := 1; n <= 5; n++ {
+			ids := idSets(n)[0]
+			cfg := setOf(ids)
+			pick := make([]int, n)
+			var rec func(i int)
+			rec = func(i int) {
+				if i == n {
+					acked := map[uint64]uint64{}
+					l := mapIdx{}
+					for k, x := range pick {
+						if x > 0 {
+							acked[ids[k]] = big[x-1]
+							l[ids[k]] = quorum.Index(big[x-1])
+						}
+					}
+					got, want := uint64(cfg.CommittedIndex(l)), refmodel.CommittedIndex(ids, acked)
+					r.Evaluations++
+					r.Nontrivial++
+					if got != want {
+						fail("MajorityConfig%v.CommittedIndex(%v) = %d, reference %d", ids, acked, got, want)
+					}
+					if n <= 3 {
+						// the same vector against a joint configuration with the reversed other half
+						jc := quorum.JointConfig{cfg, setOf(ids[:n-1])}
+						if g, w2 := uint64(jc.CommittedIndex(l)), refmodel.JointCommittedIndex([2][]uint64{ids, ids[:n-1]}, acked); g != w2 {
+							fail("JointConfig{%v,%v}.CommittedIndex(%v) = %d, reference %d", ids, ids[:n-1], acked, g, w2)
+						}
+					}
+					return
+				}
+				for x := 0; x <= len(big); x++ {
+					pick[i] = x
+					rec(i + 1)
+				}
+			}
+			rec(0)
+		}
+		r.Domains = append(r.Domains, "majority sizes 1..5 with every vector over {missing, 0, 5, 2^63-1, 2^63+9, 2^64-2, 2^64-1}")
+	}
 	// large voter sets (beyond any fixed-size scratch buffer): not all vectors, but the complete
 	// "threshold" family – for every k and every rotation, k voters report the high value, the
 	// others the low value or nothing – which contains every majority boundary
